@@ -162,10 +162,12 @@ def run(ctx):
     nb = 40 if ctx.thorough else 6
     for b in range(nb):
         jobs.append(random_batch(rnd, f"R{b}", 60, big=(b % 2 == 0)))
-    # pass-through boundary: an alignment of 60,001 read bases is written back unchanged
+    # the 60,000-base boundary: 60,001 aligned read bases are written back unchanged, 60,000 and 59,999 are realigned
     big = "".join(rnd.choice("ACGT") for _ in range(60010))
     jobs.append(("L", {"b1": big, "b2": "ACGTAC"}, [("b1", "+", "b2", "+")],
                  [{"id": "long", "walk": [[">", "b1"]], "ps": 3, "pe": 60004, "read": big[3:60004], "ops": ["="] * 60001, "frag": 0, "long": True},
+                  {"id": "exact", "walk": [[">", "b1"]], "ps": 2, "pe": 60002, "read": big[2:60002], "ops": ["="] * 60000, "frag": 0},
+                  {"id": "below", "walk": [[">", "b1"]], "ps": 5, "pe": 60004, "read": big[5:60004], "ops": ["="] * 59999, "frag": 2},
                   {"id": "short", "walk": [[">", "b1"], [">", "b2"]], "ps": 60000, "pe": 60016, "read": big[60000:] + "ACGTAC", "ops": ["="] * 16, "frag": 1}]))
     res = pool_map(run_batch, jobs, chunk=1)
     cases = [c for cs in res for c in cs]
